@@ -7,6 +7,8 @@ import (
 	"strings"
 
 	sdk "github.com/pokt-network/posmint/types"
+	authTypes "github.com/pokt-network/posmint/x/auth/types"
+	posTypes "github.com/pokt-network/posmint/x/pos/types"
 
 	"verif/harness/internal/common"
 )
@@ -30,6 +32,35 @@ func init() {
 			panic(err)
 		}
 	}
+}
+
+func genFeeProductOp(r *rand.Rand) string {
+	base := []int64{0, 1, 10000, 3000000000, 5000000000, 9223372036854775807}[r.Intn(6)]
+	mult := []int64{0, 1, 2, 5, 4000000000, 1000000000000000, 9223372036854775807}[r.Intn(7)]
+	return fmt.Sprintf("mon.feeproduct %d %d", base, mult)
+}
+
+// execFeeProduct (C18, exact and overflow-safe: the required fee of a message is its base fee times its multiplier,
+// computed in Int arithmetic - exact beyond the machine word)
+func execFeeProduct(op string) (string, []common.Failure) {
+	f := strings.Fields(op)
+	var base, mult int64
+	fmt.Sscan(f[1], &base)
+	fmt.Sscan(f[2], &mult)
+	posTypes.PosFeeMap = map[string]int64{"send": base}
+	var got sdk.Int
+	if p := try(func() string {
+		got = authTypes.FeeMultipliers{FeeMultis: []authTypes.FeeMultiplier{{Key: "other", Multiplier: 7}, {Key: "send", Multiplier: mult}}, Default: 1}.GetFee(posTypes.MsgSend{})
+		return ""
+	}); p != "" {
+		return "done", []common.Failure{{Clause: "fee-product", Signature: "C18:fee-product:panic", Detail: op}}
+	}
+	want := new(big.Int).Mul(big.NewInt(base), big.NewInt(mult))
+	if got.BigInt().Cmp(want) != 0 {
+		return "done", []common.Failure{{Clause: "fee-product", Signature: "C18:fee-product:result",
+			Detail: fmt.Sprintf("%s: base fee %d times multiplier %d gives %s, exactly %s", op, base, mult, got, want)}}
+	}
+	return "done", nil
 }
 
 func genConvertOp(r *rand.Rand) string {
